@@ -198,7 +198,8 @@ func (p *provider) ruleSetsUpdated(ruleSets []*rule_config.RuleSet, state Bucket
 	for _, ID := range removedIDs {
 		conf := &rule_config.RuleSet{
 			MetaData: rule_config.MetaData{
-				Source:  "blob:" + ID,
+				// must be the same value, the rule set has been created with
+				Source:  ID,
 				ModTime: time.Now(),
 			},
 		}
